@@ -468,6 +468,9 @@ class Q:
     def __pow__(a, b, mod=None):
         if mod is not None:
             return NotImplemented
+        # Fraction ** float is a float in Python, whatever the float's value: the result is
+        # tagged as float-derived (nothing exact may be claimed about it)
+        float_exponent = isinstance(b, float) or (isinstance(b, Q) and b.c is not None and b.inexact)
         b = _coerce(b)
         if b is NotImplemented:
             return b
@@ -476,12 +479,15 @@ class Q:
             bv = _cur().realize(b.t)
             b = Q._mk(bv, inexact=b.inexact)
         e = b.c
-        inx = a.inexact or b.inexact
+        inx = a.inexact or b.inexact or float_exponent
         if e.denominator == 1:
             n = e.numerator
             if a.c is not None:
                 if n < 0 and a.c == 0:
                     raise ZeroDivisionError("Q(0) ** negative")
+                if float_exponent:
+                    # what Python computes for Fraction ** float: a float (exact binary value kept)
+                    return Q._mk(Fraction(float(a.c) ** float(n)), inexact=True)
                 return Q._mk(a.c**n, inexact=inx)
             if n == 0:
                 return Q._mk(_ONE)
@@ -720,6 +726,36 @@ def _unpickle_placeholder(lit):
 numbers.Real.register(Q)
 
 
+def _float_twin(name, reflected):
+    """concrete Q combined with a Python float behaves like Fraction: the result is a float"""
+    import operator as _op
+
+    orig = getattr(Q, name)
+    pyop = {"add": _op.add, "sub": _op.sub, "mul": _op.mul, "truediv": _op.truediv, "floordiv": _op.floordiv, "mod": _op.mod, "pow": _op.pow}[name.strip("_").lstrip("r") if reflected else name.strip("_")]
+
+    def method(a, b, *rest):
+        if type(b) is float and a.c is not None and not rest:
+            try:
+                return pyop(b, float(a.c)) if reflected else pyop(float(a.c), b)
+            except OverflowError:
+                pass
+        return orig(a, b, *rest)
+
+    method.__name__ = name
+    return method
+
+
+def _install_float_twin():
+    for nm in ("__add__", "__sub__", "__mul__", "__truediv__", "__floordiv__", "__mod__", "__pow__"):
+        setattr(Q, nm, _float_twin(nm, False))
+    for nm in ("__radd__", "__rsub__", "__rmul__", "__rtruediv__", "__rfloordiv__", "__rmod__", "__rpow__"):
+        if nm in Q.__dict__ and Q.__dict__[nm] is not Q.__dict__.get(nm.replace("__r", "__", 1)):
+            setattr(Q, nm, _float_twin(nm, True))
+        else:
+            # reflected alias of a commutative operation
+            setattr(Q, nm, _float_twin(nm, True))
+
+
 def _coerce(x):
     if isinstance(x, Q):
         return x
@@ -730,7 +766,8 @@ def _coerce(x):
     if isinstance(x, float):
         if x != x or x in (math.inf, -math.inf):
             return NotImplemented
-        return Q._mk(Fraction(x), inexact=False)
+        # (a Fraction combined with a float is a float in Python: float-derived, tagged)
+        return Q._mk(Fraction(x), inexact=True)
     if isinstance(x, Decimal):
         return Q._mk(Fraction(x))
     if isinstance(x, z3.ArithRef):
@@ -757,3 +794,6 @@ def term(x):
 
 def is_sym(x):
     return isinstance(x, Q) and x.c is None
+
+
+_install_float_twin()
